@@ -73,12 +73,12 @@ def run(ctx):
     ctx.log("tlc %s: %d distinct states, %d edges, %.1fs" % (ecfg, r.distinct, len(r.traces), r.wall))
     ctx.cov["edges_emitted"] = len(r.traces)
     behs = vlib.dedup_prefix(r.traces)
-    replay(ctx, binary, behs, "edges")
     r = get(t_sim, "sim")
     vlib.require_model_ok(r, "Multisig_sim")
-    ctx.add_tlc(r, "simulate n in {3,4,5,8,9,16,17} depth 14")
+    ctx.add_tlc(r, "simulate n in {3,4,5,8,9,16,17}, 14 steps")
     ctx.log("tlc simulate: %d behaviours, %.1fs" % (len(r.traces), r.wall))
-    replay(ctx, binary, r.traces, "simulation")
+    # one driver run over both sources: each failing class is reported once, with its smallest case
+    replay(ctx, binary, behs + r.traces, "edges + simulation")
     r = get(t_mc, "mc")
     vlib.require_model_ok(r, mcfg)
     ctx.add_tlc(r, "exhaustive " + mcfg)
